@@ -42,6 +42,8 @@ class Module:
                     self.functions[key] = sub
         elif isinstance(node, ast.Assign) and len(node.targets) == 1 and isinstance(node.targets[0], ast.Name):
             self.globals[node.targets[0].id] = node.value
+        elif isinstance(node, ast.AnnAssign) and isinstance(node.target, ast.Name) and node.value is not None:
+            self.globals[node.target.id] = node.value
         elif isinstance(node, ast.Try):
             for sub in node.body:
                 self._scan(sub, True)
